@@ -668,15 +668,13 @@ func TestC16Regexp(t *testing.T) {
 		)
 		if isRe {
 			inner := arg[1 : len(arg)-1]
-			var re *regexp.Regexp
-			re, innerErr = regexp.Compile(inner)
+			_, innerErr = regexp.Compile(inner)
 			_, wholeErr = regexp.Compile(arg) // the argument validation compiles the text including the slashes
 			if innerErr == nil {
 				for _, n := range existing {
 					if ok, _ := regexp.MatchString(inner, n); ok {
 						expected = append(expected, n)
 					}
-					_ = re
 				}
 			}
 			mustError = innerErr != nil
